@@ -240,7 +240,6 @@ class _FakeNib:
 
 @oracle('C20/bids-files')
 def orc_bids_files(case):
-    import pandas
     from rsatoolbox.io.bids import BidsLayout, BidsMriFile
     ents_list = case['files']          # list of entity dicts of derivative bold files
     desc = case['desc']
@@ -252,17 +251,21 @@ def orc_bids_files(case):
             with open(full, 'w') as fh:
                 fh.write(text)
 
+        def tag(rel):          # content is a function of the place of the file, so shared files (events) are consistent
+            return sum(map(ord, rel)) % 97
+
         expected = []
-        for i, ents in enumerate(ents_list):
+        for ents in ents_list:
             rel = _bids_build(ents)
             put(rel, 'img')
-            put(_bids_build(dict(ents, ext='json')), json.dumps(dict(RepetitionTime=1.5 + i, marker=rel)))
-            put(_bids_build(dict(ents, derivative=None, space=None, desc=None, suffix='events', ext='tsv')),
-                'onset\tduration\ttrial_type\n%d.5\t1\tc%d\n%d.5\t2\tface\n' % (i, i, i + 10))
-            put(_bids_build(dict(ents, desc='confounds', suffix='timeseries', ext='tsv', space=None)),
-                'csf\ttrans_x\n%d\t0.5\n%d\t0.25\n' % (i, i + 1))
+            mrel = _bids_build(dict(ents, ext='json'))
+            put(mrel, json.dumps(dict(RepetitionTime=1.5 + tag(mrel), marker=mrel)))
+            erel = _bids_build(dict(ents, derivative=None, space=None, desc=None, suffix='events', ext='tsv'))
+            put(erel, 'onset\tduration\ttrial_type\n%d.5\t1\tc%d\n%d.5\t2\tface\n' % (tag(erel), tag(erel), tag(erel) + 10))
+            crel = _bids_build(dict(ents, desc='confounds', suffix='timeseries', ext='tsv', space=None))
+            put(crel, 'csf\ttrans_x\n%d\t0.5\n%d\t0.25\n' % (tag(crel), tag(crel) + 1))
             put(_bids_build(dict(ents, desc='brain', suffix='mask')), 'mask')
-            if desc == ents.get('desc') or ('desc-' + desc) in rel:
+            if ('desc-' + desc) in rel:
                 if tasks is None or any(('task-' + t) in rel for t in tasks):
                     expected.append(rel)
         layout = BidsLayout(root, nibabel=_FakeNib())
@@ -275,25 +278,27 @@ def orc_bids_files(case):
         for f in found:
             if type(f) is not BidsMriFile:
                 return f'{f.relpath}: found file is a {type(f).__name__}'
-        for i, ents in enumerate(ents_list):
+        for ents in ents_list:
             rel = _bids_build(ents)
             f = BidsMriFile(rel, layout, _FakeNib())
             if f.get_data() != os.path.join(root, rel):
                 return f'{rel}: get_data read {f.get_data()}'
+            mrel = _bids_build(dict(ents, ext='json'))
             meta = f.get_meta()
-            if meta != dict(RepetitionTime=1.5 + i, marker=rel):
-                return f'{rel}: get_meta returned {meta}'
+            if meta != dict(RepetitionTime=1.5 + tag(mrel), marker=mrel):
+                return f'{rel}: get_meta returned {meta}, the sidecar is {mrel}'
+            erel = _bids_build(dict(ents, derivative=None, space=None, desc=None, suffix='events', ext='tsv'))
             ev = f.get_events()
-            if list(ev.columns) != ['onset', 'duration', 'trial_type'] or list(ev.trial_type) != ['c%d' % i, 'face'] \
-                    or list(ev.onset) != [i + 0.5, i + 10.5]:
-                return f'{rel}: get_events returned {ev.to_dict()}'
+            if list(ev.columns) != ['onset', 'duration', 'trial_type'] or list(ev.trial_type) != ['c%d' % tag(erel), 'face'] \
+                    or list(ev.onset) != [tag(erel) + 0.5, tag(erel) + 10.5]:
+                return f'{rel}: get_events returned {ev.to_dict()}, the events file is {erel}'
+            crel = _bids_build(dict(ents, desc='confounds', suffix='timeseries', ext='tsv', space=None))
             cf = f.get_table_sibling('confounds', 'timeseries').get_frame()
-            if list(cf.columns) != ['csf', 'trans_x'] or list(cf.csf) != [i, i + 1]:
-                return f'{rel}: confounds table {cf.to_dict()}'
+            if list(cf.columns) != ['csf', 'trans_x'] or list(cf.csf) != [tag(crel), tag(crel) + 1]:
+                return f'{rel}: confounds table {cf.to_dict()}, the file is {crel}'
             mask = f.get_mri_sibling('brain', 'mask').get_data()
             if mask != os.path.join(root, _bids_build(dict(ents, desc='brain', suffix='mask'))):
                 return f'{rel}: mask sibling read {mask}'
-        assert isinstance(pandas.DataFrame(), pandas.DataFrame)
     return None
 
 
@@ -1117,8 +1122,10 @@ def tier_c(run, thorough):
            f'{nfam} value families ({", ".join(BIDS_FAMILIES)}); modality directory present')
     for name, orc, fn in (('C20/bids-parse', orc_bids_parse, 'BidsFile._deconstruct'),
                           ('C20/bids-rebuild', orc_bids_rebuild, 'BidsLayout._replace'),
-                          ('C20/bids-lookups', orc_bids_lookups, 'BidsLayout.find_*')):
-        bd = Bounded(run, name, f'C20/{fn}/oracle/{name.split("/")[1]}', dom + (
+                          ('C20/bids-lookups', orc_bids_lookups, 'BidsLayout.find_meta_for')):
+        obl = 'C20/BidsLayout.lookups/oracle/bids-lookups' if 'lookups' in name else \
+            f'C20/{fn}/oracle/{name.split("/")[1]}'
+        bd = Bounded(run, name, obl, dom + (
             f'; sibling arguments {BIDS_SIBS} and the own desc/suffix' if 'lookups' in name else ''),
             exhaustive=True, function=fn)
         for fam, case in _bids_cases():
@@ -1135,7 +1142,7 @@ def tier_c(run, thorough):
     bd.done()
     bds.append(bd)
 
-    bd = Bounded(run, 'C20/bids-files', 'C20/BidsLayout.find_*/oracle/bids-files',
+    bd = Bounded(run, 'C20/bids-files', 'C20/BidsLayout.find_mri_derivative_files/oracle/bids-files',
                  'directory trees in a TemporaryDirectory with 2-4 derivative bold files (with/without ses, run, space), their '
                  'json sidecars, raw events, confounds tables, masks; desc filter, task filter None / one / two tasks',
                  function='BidsLayout.find_mri_derivative_files')
@@ -1158,7 +1165,7 @@ def tier_c(run, thorough):
 
     # ---------------- MNE ----------------
     bd = Bounded(run, 'C20/mne-epochs', 'C20/dataset_from_epochs/oracle/mne-epochs',
-                 'fake epochs objects, epochs 1..4 x channels 1..3 x times 1..4 (sentinel data), descriptors none / omitted / given',
+                 'fake epochs objects, epochs 1..4 x channels 1..3 x times in {1, 2, 4} (sentinel data), descriptors none / omitted / given',
                  exhaustive=True, function='dataset_from_epochs')
     for ne in (1, 2, 3, 4):
         for nc in (1, 2, 3):
